@@ -150,4 +150,4 @@ def replay(ctx, path):
         e.pop("res", None)
         e.pop("id", None)
         V.append(e)
-    ctx.check_events(V, case_of=case_of)
+    ctx.check_events(V, case_of=lambda e: e.get("id"))
